@@ -428,7 +428,7 @@ fn spawn_worker(prop: &str, tier: Tier, base: u64, start: u64, count: u64, chunk
             "worker", "--prop", prop, "--tier", tier.name(), "--seed", &base.to_string(), "--start", &start.to_string(),
             "--count", &count.to_string(), "--chunk", &chunk.to_string(), "--out", out.to_str().unwrap(), "--cpu", &cpu.to_string(),
         ])
-        .env("VERIF_WATCHDOG_S", "600")
+        .env("VERIF_WATCHDOG_S", "240")
         .stdin(Stdio::null())
         .stdout(Stdio::null())
         .stderr(Stdio::inherit())
@@ -960,11 +960,19 @@ fn selftest_determinism(args: &[String]) -> i32 {
         if order_rev {
             idxs.reverse();
         }
+        // resume after a tainting run (which retires its process, exactly as in a check)
+        if let Some(after) = arg(args, "--after").and_then(|s| s.parse::<u64>().ok()) {
+            if let Some(pos) = idxs.iter().position(|i| *i == after) {
+                idxs.drain(..=pos);
+            }
+        }
         for i in idxs {
             let (which, plan) = make_plan(prop, tier, base, i, chunk).unwrap();
             let rep = run_scenario(scens[which].as_ref(), &plan);
             println!("{i} {:016x} {:016x} {} {}", rep.outcome.hash, rep.case_sig, rep.outcome.steps, rep.violation.is_some());
-            if rep.outcome.wedged {
+            if rep.outcome.wedged || rep.tainting {
+                // this process must not run another simulation; the parent resumes in a fresh one
+                println!("TAINTED {i}");
                 break;
             }
         }
@@ -976,22 +984,35 @@ fn selftest_determinism(args: &[String]) -> i32 {
         let mut outs: Vec<BTreeMap<u64, String>> = vec![];
         for (cpu, rev, start) in [("0", false, 0u64), ("3", true, 0), ("none", false, 0), ("5", false, chunk), ("7", true, chunk)] {
             let exe = std::env::current_exe().unwrap();
-            let mut c = Command::new(exe);
-            c.args(["selftest-determinism", "--emit-hashes", prop, "--runs", &n.to_string(), "--start", &start.to_string()]);
-            if cpu != "none" {
-                c.args(["--cpu", cpu]);
-            }
-            if rev {
-                c.arg("--reverse");
-            }
-            c.env("VERIF_WATCHDOG_S", "300");
-            let o = c.output().expect("child");
             let mut mp = BTreeMap::new();
-            for l in String::from_utf8_lossy(&o.stdout).lines() {
-                if let Some((i, rest)) = l.split_once(' ') {
-                    if let Ok(i) = i.parse::<u64>() {
-                        mp.insert(i, rest.to_string());
+            let mut after: Option<u64> = None;
+            loop {
+                let mut c = Command::new(&exe);
+                c.args(["selftest-determinism", "--emit-hashes", prop, "--runs", &n.to_string(), "--start", &start.to_string()]);
+                if cpu != "none" {
+                    c.args(["--cpu", cpu]);
+                }
+                if rev {
+                    c.arg("--reverse");
+                }
+                if let Some(a) = after {
+                    c.args(["--after", &a.to_string()]);
+                }
+                c.env("VERIF_WATCHDOG_S", "300");
+                let o = c.output().expect("child");
+                let mut tainted = None;
+                for l in String::from_utf8_lossy(&o.stdout).lines() {
+                    if let Some((i, rest)) = l.split_once(' ') {
+                        if i == "TAINTED" {
+                            tainted = rest.trim().parse::<u64>().ok();
+                        } else if let Ok(i) = i.parse::<u64>() {
+                            mp.insert(i, rest.to_string());
+                        }
                     }
+                }
+                match tainted {
+                    Some(t) => after = Some(t),
+                    None => break,
                 }
             }
             outs.push(mp);
